@@ -339,22 +339,10 @@ def _conversion_totality(ck, prog):
     n_str = 0
     for fx in sites:
         pnames = {a.arg for a in fx.node.args.args if a.annotation is not None and "Exception" in ast.unparse(a.annotation)}
-        par = {}
-        for n in ast.walk(fx.node):
-            for c in ast.iter_child_nodes(n):
-                par[id(c)] = n
-        bad = []
-        for n in ast.walk(fx.node):
-            if isinstance(n, ast.Call) and isinstance(n.func, ast.Name) and n.func.id in ("str", "repr", "format") and n.args and isinstance(n.args[0], ast.Name) \
-                    and n.args[0].id in pnames:
-                n_str += 1
-                cur, ok = par.get(id(n)), False
-                while cur is not None:
-                    if isinstance(cur, ast.Try) and any(n is x for b in cur.body for x in ast.walk(b)) and cur.handlers:
-                        ok = True
-                    cur = par.get(id(cur))
-                if not ok:
-                    bad.append(n.lineno)
+        from sa.common import unguarded_text_conversions
+        ns_, bad_ = unguarded_text_conversions(fx.node, pnames)
+        n_str += ns_
+        bad = [ln for ln, _w in bad_]
         ck.ob("R1.user-exception-text-is-guarded", fn_construct(fx), not bad,
               f"`str(<the user's exception>)` (line {bad[0] if bad else 0}) runs the user's __str__ unprotected: for an Exception class whose __str__ returns None "
               "(`return self.message`) the TypeError leaves the wrapper's `except Exception` arm (a Lambda retry that fails the same way instead of FAILED) / leaves the "
